@@ -609,7 +609,7 @@ func fillLeaves(x gen.Expr, next *int) gen.Expr {
 }
 
 // leafModes: what the leaves of an enumerated tree are.
-var leafModes = []string{"ident", "str", "num", "ident-str", "str-ident", "same-str"}
+var leafModes = []string{"ident", "str", "num", "ident-str", "str-ident", "same-str", "ident-num", "num-ident"}
 
 func fillLeavesMode(x gen.Expr, next *int, mode string) gen.Expr {
 	leaf := func() gen.Expr {
@@ -631,6 +631,14 @@ func fillLeavesMode(x gen.Expr, next *int, mode string) gen.Expr {
 		case "str-ident":
 			if i%2 == 0 {
 				return str
+			}
+		case "ident-num":
+			if i%2 == 1 {
+				return &gen.Num{Text: fmt.Sprint(i + 1)}
+			}
+		case "num-ident":
+			if i%2 == 0 {
+				return &gen.Num{Text: fmt.Sprint(100 + i)}
 			}
 		}
 		return id
